@@ -268,6 +268,7 @@ def build_bytes_from_sse(event: ServerSentEvent, charset: str) -> bytes:
     helper function for SendEventResponse
     """
     data: Iterable[bytes]
+    event = dict(event)  # type: ignore  # the caller's mapping is not consumed
     if "data" in event:
         # an event stream knows three line terminators (CRLF, CR, LF) and nothing
         # else: str.splitlines() would also split at U+2028, U+0085, VT, FF, ...
